@@ -1,0 +1,25 @@
+//go:build verif
+
+// Contracts for package accesscontroller, read by /verif/govc. Comments only.
+package accesscontroller
+
+// ManifestParams values are *CreateAccessControllerOptions (the only implementation)
+//@ devirt berty.tech/go-orbit-db/accesscontroller.ManifestParams => accesscontroller.CreateAccessControllerOptions
+
+// CreateManifest (C14): the access-controller address is the content address of (type, saved-parameters
+// address); with SkipManifest the given address is returned unchanged.
+//@ func CreateManifest
+//@   props C14
+//@   flag nilcalls
+//@   requires params != nil && ref(params) != 0
+//@   ghost P := ptr(params, "accesscontroller.CreateAccessControllerOptions")
+//@   ensures P.SkipManifest ==> result1 == nil && result == P.Address
+//@   ensures !P.SkipManifest && result1 == nil ==> result == acManifestHash(controllerType, P.Address, false)
+//@   modifies nothing
+
+// SetAccess records the list for the role and leaves the other roles alone.
+//@ func (*CreateAccessControllerOptions).SetAccess
+//@   props C14 C03
+//@   ensures m.Access != nil && (role in m.Access) && m.Access[role] == allowed
+//@   ensures forall r Str :: r != role ==> (r in m.Access) == old(r in m.Access) && m.Access[r] == old(m.Access[r])
+//@   modifies m.Access, "MD:Str:Slice_Str", "MV:Str:Slice_Str", "MC:Str:Slice_Str"
